@@ -129,6 +129,11 @@ func RequestCC(t *rapid.T, h *Hist, label string) string {
 	case 1:
 		cc = append(cc, "max-stale")
 	case 2:
+		if Pct(t, label+"-msinv", 12) {
+			// arguments that are no delta-seconds value (malformed quoting, signs, text)
+			cc = append(cc, "max-stale="+Pick(t, label+"-msinvv", `"5`, `"`, `"5\"`, `"5"0"`, "abc", "-1", "1.5", `""`, "5s"))
+			break
+		}
 		cc = append(cc, "max-stale="+PadZeros(t, label+"-mspad", itoa(SecondsNear(t, label+"-ms", h.InPlay))))
 	case 3:
 		cc = append(cc, "max-age="+PadZeros(t, label+"-rmapad", itoa(SecondsNear(t, label+"-ma", h.InPlay))))
